@@ -206,7 +206,7 @@ Qed.
 Lemma buf_process_cf c now m w j : catchf (w_mod (fst (buf_process c now m w)) j) = catchf (w_mod w j).
 Proof.
   unfold buf_process, shutdown_part. cbn [w_mod set_buf set_fes].
-  destruct (shut (w_mod w m)) as [[t|]|]; cbn [fst w_mod set_fes set_fin set_mod]; try reflexivity;
+  destruct (shut (w_mod w m)) as [[t|]|]; cbn [fst]; rewrite ?ifse_mod; cbn [w_mod set_fes set_fin set_mod]; try reflexivity;
     (destruct (j =? m) eqn:E; [|reflexivity]); apply N.eqb_eq in E; subst j; reflexivity.
 Qed.
 
@@ -214,7 +214,7 @@ Lemma buf_process_neutral c now m w j : Forall (neutral j) (snd (buf_process c n
 Proof.
   unfold buf_process, shutdown_part. cbn [w_mod set_buf set_fes].
   destruct (shut (w_mod w m)) as [r|]; cbn [snd]; [|constructor].
-  apply Forall_app. split; [|repeat constructor]. apply Forall_forall. intros it Hin.
+  apply Forall_app. split; [|unfold rpanic; destruct (c_rsend c); repeat constructor]. apply Forall_forall. intros it Hin.
   destruct (cancelled_in _ _ _ _ Hin) as [(id & ->)|(id & ->)]; exact I.
 Qed.
 
